@@ -20,7 +20,7 @@ LEAN_MODULES = ["MpfVerif.Props.C10"]
 PROPS_FILE = "MpfVerif/Props/C10.lean"
 GEN = []
 MANIFEST = {
-    "text": "Proof on a Lean model of flippers (single/dual wound, with/without EOS switch, software EOS repulse), autofire coils and kickbacks (timeout protection, re-enable delay, ball search) writing and clearing rows of a platform rule table keyed by (switch, coil): for every configuration whose rule keys are pairwise distinct and every sequence of enable/disable/sw_flip/sw_release/ball-search/switch/hit/lifecycle-event/clock ops, the table holds exactly the rules of the enabled devices, each key once, and every auxiliary switch handler belongs to an enabled device; enable and disable are idempotent; after an event listed in the disable events of every device and in no enable events (ball_will_end, service_mode_entered by default; tilt, slam tilt and game end reach ball_will_end through the real game) table and handlers are empty and every device stays disabled until something enables one; after a disable no re-enable delay is pending and the device stays disabled through any later ops that do not enable it. That a disable switches off the coils a flipper energised is proved for the disable step only (_partial); 'no coil of a disabled flipper is energised' as a state invariant is checked by the oracle on the implementation, not proved. The model is tied to flipper.py/autofire.py/kickback.py/platform_controller.py/virtual.py by a correspondence run on real devices of a real machine (with and without a running game) after every op; the oracle checks the platform's rules dict and the registered switch handlers against the enabled devices on every op.",
+    "text": "Proof on a Lean model of flippers (single/dual wound, with/without EOS switch, software EOS repulse), autofire coils and kickbacks (timeout protection, re-enable delay, ball search) writing and clearing rows of a platform rule table keyed by (switch, coil): for every configuration whose rule keys are pairwise distinct and every sequence of enable/disable/sw_flip/sw_release/ball-search/switch/hit/lifecycle-event/clock ops, the table holds exactly the rules of the enabled devices, each key once, and every auxiliary switch handler belongs to an enabled device; enable and disable are idempotent; after an event listed in the disable events of every device and in no enable events (ball_will_end, service_mode_entered by default; tilt, slam tilt and game end reach ball_will_end through the real game) table and handlers are empty, no coil is energised and every device stays disabled until something enables one; after a disable no re-enable delay is pending and the device stays disabled through any later ops that do not enable it. In every reachable state (any configuration) a coil energised by a software command is owed to the sw_flipped / repulse-enabled flag of an enabled flipper, so no coil is energised on behalf of a disabled flipper and after such a disabling event no coil is energised at all. The model is tied to flipper.py/autofire.py/kickback.py/platform_controller.py/virtual.py by a correspondence run on real devices of a real machine (with and without a running game) after every op; the oracle checks the platform's rules dict and the registered switch handlers against the enabled devices on every op.",
     "note": "Trusted: Lean kernel + {propext, Classical.choice, Quot.sound}; the hand-written model Model/Rules.lean (validated only by differential runs); the virtual platform's rules dict stands for the hardware (real platforms' own set/clear implementations are not covered); game flow (which lifecycle events a tilt / drain / game end posts) is taken from the real game and fed to the model as events; asyncio timers via the repo's TimeTravelLoop. Assumes devices do not share a (switch, coil) pair and kickback switches are not shared. Three defects fixed (half-installed flipper after a refused rule, autofire enabled without a rule, software EOS repulse leaving the coil on after disable).",
     "technique": "Lean 4 theorems (invariant + induction over all op sequences) on a hand model + differential correspondence and rule-table oracle on real devices",
     "translated": False,
@@ -28,10 +28,11 @@ MANIFEST = {
 RULE = ("a case = 1-4 devices (flipper wiring variant single/dual/single+EOS/dual+EOS, optional software EOS repulse with 0 or "
         "250 ms debounce, no activation switch, zero-length pulse, coil limits that refuse the main or hold rule; autofire / "
         "kickback with coil_overwrite, switch_overwrite, reverse_switch, NC switch, timeout protection, delayed pulse, "
-        "ball_search_order, kickback disabling itself on its fired event; shared switches, generated or default "
-        "enable/disable events) + 6-30 ops (enable/disable by API or event incl. repeats, sw_flip/sw_release, ball-search "
+        "ball_search_order, kickback disabling itself on its fired event on a switch of its own; flippers with "
+        "power_setting_name; shared switches, generated or default enable/disable events, some with an event|ms delay) + 6-30 ops (enable/disable by API or event incl. repeats, sw_flip/sw_release, ball-search "
         "callback, switch changes incl. hits that trigger the timeout protection, lifecycle events, clock advances on the "
-        "1/8 s grid), without a game (events posted) or with a real game (start, drain, tilt, slam tilt, service, end). "
+        "1/8 s grid, flipper_power setting changes); directed streams for software EOS repulse cycles and for timeout "
+        "hits inside / at / outside the code's actual window; without a game (events posted) or with a real game (start, drain, tilt, slam tilt, service, end). "
         "non-trivial = at least one rule was written and one cleared; distinct = canonical JSON of (devices, ops)")
 TRUSTED = ["modelled, not verified: the virtual platform's rules dict as the hardware; real hardware platforms' "
            "set_*_rule/clear_hw_rule; game flow (lifecycle events are taken from the real game); asyncio timers "
@@ -40,7 +41,14 @@ TRUSTED = ["modelled, not verified: the virtual platform's rules dict as the har
            "correspondence on every run"]
 ASSUMPTIONS = ["two devices never use the same (switch, coil) pair and a coil belongs to one device (the platform table is "
                "keyed by that pair; the virtual platform asserts on such a config)",
-               "a kickback's switch is not shared with another autofire device; control events carry no delay (event:ms)",
+               "a kickback's switch is not shared with another autofire device",
+               "a control event with a delay (event|ms) is an enable/disable request at the instant the delay fires: MPF "
+               "does not cancel it on a later disable, so 'enable_events: ball_started|2s' can enable a device after the "
+               "ball ended - that is the configured behaviour, not claimed as a violation",
+               "outside C10: AutofireCoil._hit divides timeout_watch_time by 1000 twice, so the timeout protection only "
+               "counts hits within watch_time/1000 (1 s -> 1 ms).  C10 is about the rules matching the enabled devices "
+               "however the timeout trips; the model reproduces the code's actual window and the generator produces "
+               "hits inside it (same instant, or 125 ms apart with watch times >= 130 s) and outside it",
                "an enable refused by coil limits raises out of the event handler (MPF stops); the case ends there"]
 
 KINDS = {"pulse_on_hit": 0, "pulse_on_hit_and_enable_and_release": 1, "pulse_on_hit_and_release": 2,
@@ -72,6 +80,11 @@ def gen_events(r, i, game, kick):
         dis.append(r.choice(en))          # same event enables and disables (disable runs first)
     if r.random() < 0.1 and i > 0:
         en.append("d%d_on" % r.randrange(i))
+    if r.random() < 0.3:          # event|ms delays: the request arrives later and is not cancelled by what happens meanwhile
+        for lst_ in (en, dis) if r.random() < 0.4 else ((en,) if r.random() < 0.7 else (dis,)):
+            k = r.randrange(len(lst_))
+            if "|" not in lst_[k] and lst_[k] not in [x.split("|")[0] for x in (en + dis) if x is not lst_[k]]:
+                lst_[k] += "|%dms" % r.choice([125, 250, 250, 500, 1000])
     return [en, dis]
 
 
@@ -85,7 +98,7 @@ def gen_dev(r, i, game, used_kick_sw):
              "eos": r.choice([s for s in range(NSW) if s != act]) if eos else None,
              "repulse": eos and r.random() < 0.6, "eos_ms": r.choice([0, 0, 250]),
              "noswitch": r.random() < 0.05, "fail": None, "mo0": r.random() < 0.12, "ho0": r.random() < 0.12,
-             "search": r.random() < 0.5, "hold_ms": r.choice([250, 500, 1000])}
+             "search": r.random() < 0.5, "hold_ms": r.choice([250, 500, 1000]), "power": r.random() < 0.2}
         if r.random() < 0.12:
             d["fail"] = r.choice(["main", "hold"]) if variant.startswith("dual") else "main"
             d["mo0"] = d["ho0"] = False
@@ -98,7 +111,9 @@ def gen_dev(r, i, game, used_kick_sw):
              "fail": None, "watch": 0, "max_hits": 0, "dis_ms": 0, "order": r.choice([0, 100, 100, 50]),
              "self_disable": kick and r.random() < 0.4}
         if r.random() < 0.55:
-            d["watch"] = r.choice([1000, 1000, 500, 5000])
+            # the code's window is watch/1000 ms: 1000 -> 1 ms (same instant only); 130000 / 200000 -> hits 125 ms
+            # apart are inside, 250 ms apart outside; 125000 -> the boundary itself (125 ms apart is outside)
+            d["watch"] = r.choice([1000, 1000, 500, 5000, 125000, 130000, 200000, 200000])
             d["max_hits"] = r.choice([1, 2, 2, 3, 0])
             d["dis_ms"] = r.choice([0, 250, 500, 500, 1000])
         if r.random() < 0.1:
@@ -157,9 +172,12 @@ def gen_ops(r, devs, game):
             if af and r.random() < 0.5:
                 s = devs[r.choice(af)]["sw"]
             if r.random() < 0.45:
-                for _ in range(r.choice([1, 2, 3])):       # a burst of hits at one instant (timeout protection)
+                gap = r.choice([0, 0, 1, 1, 2])            # a burst of hits at one instant or 125 / 250 ms apart
+                for _ in range(r.choice([1, 2, 3])):
                     ops.append(["sw", s, 1])
                     ops.append(["sw", s, 0])
+                    if gap:
+                        ops.append(["advance", gap])
             else:
                 ops.append(["sw", s, r.choice([0, 1])])
         elif k < 0.87:
@@ -167,6 +185,8 @@ def gen_ops(r, devs, game):
                 ops.append(["game", r.choice(["start", "drain", "drain", "tilt", "slam_tilt", "service", "end"])])
             else:
                 ops.append(["ev", r.choice(LIFE[:6] + ["all_on", "all_off", "ball_started", "ball_will_end"])])
+        elif k < 0.9 and any(d.get("power") for d in devs):
+            ops.append(["setting", r.choice([0.8, 1.0, 1.2])])
         else:
             ops.append(["advance", r.choice([1, 1, 2, 2, 3, 4, 8])])
     return ops
@@ -225,6 +245,8 @@ def build_config(devs, game):
                 if ov:
                     out.append("    %s:" % name)
                     out += ["      %s: %s" % kv for kv in ov.items()]
+            if d.get("power"):
+                out.append("    power_setting_name: flipper_power")
             if d["search"]:
                 out += ["    include_in_ball_search: true", "    ball_search_hold_time: %dms" % d["hold_ms"]]
             out += ["    sw_flip_events: f%d_flip" % i, "    sw_release_events: f%d_release" % i]
@@ -253,7 +275,12 @@ def build_config(devs, game):
             dis = list(dis)
             if d.get("self_disable"):
                 dis.append("kickback_k%d_fired" % i)
-            out += ["    enable_events: %s" % (", ".join(en) or "None"), "    disable_events: %s" % (", ".join(dis) or "None")]
+            for key, names in (("enable_events", en), ("disable_events", dis)):
+                if any("|" in n for n in names):        # a delay needs the dict form  event: ms
+                    out.append("    %s:" % key)
+                    out += ["      %s: %s" % ((n.split("|") + ["0"])[0], (n.split("|") + ["0"])[1]) for n in names]
+                else:
+                    out.append("    %s: %s" % (key, ", ".join(names) or "None"))
         elif d.get("self_disable"):
             out += ["    disable_events: ball_will_end, service_mode_entered, kickback_k%d_fired" % i]
         tgt += out
@@ -288,20 +315,22 @@ def expected_rules(d, i, nc):
     eos = d["variant"].endswith("_eos")
     rows, aux = [], []
     ps = 0 if a in nc else 1
+    mo0 = d["mo0"] and not d.get("power")       # with power_setting_name a 0 ms overwrite falls back to default_pulse_ms
+    ho0 = d["ho0"] and not d.get("power")
     if eos:
         kind = 3 if dual else 4
         rows += [(a, m, kind), (e, m, kind)]
         if d["repulse"]:
             aux += [(a, 1, 1, m), (a, 0, 2, m), (e, 1, 3, m), (e, 0, 4, m)]
-        if not d["ho0"]:
+        if not ho0:
             aux.append((a, ps, 0, m))
     else:
         rows.append((a, m, 2 if dual else 1))
-        if not d["mo0"]:
+        if not mo0:
             aux.append((a, ps, 0, m))
     if dual:
         rows.append((a, h, 1))
-        if not d["ho0"]:
+        if not ho0:
             aux.append((a, ps, 0, h))
     return rows, aux
 
@@ -316,6 +345,7 @@ class Run:
         self.events = []      # (ms, name) lifecycle events seen
         self.on = set()
         self.dead = False
+        self.pending = []     # delayed control events not yet fired: (due ms, device, action)
         self.codes = {n: k for k, n in enumerate(LIFE)}
 
     def code(self, name):
@@ -382,8 +412,28 @@ class Run:
         return round(self.vm.now() * 1000)
 
     def ev_lists(self, i):
+        """(enable events, disable events) handled at once (no delay), from the validated device config"""
         o = self.objs[i]
-        return list(o.config["enable_events"]), list(o.config["disable_events"])
+        return ([n for n, ms in o.config["enable_events"].items() if not ms],
+                [n for n, ms in o.config["disable_events"].items() if not ms])
+
+    def ev_delayed(self, i):
+        o = self.objs[i]
+        return ([(n, ms, "enable") for n, ms in o.config["enable_events"].items() if ms] +
+                [(n, ms, "disable") for n, ms in o.config["disable_events"].items() if ms])
+
+    def collect_delayed(self):
+        """delayed control events (event|ms): schedule those posted in this op, return those that fired in it as
+        (ms, device, action) in time order; None when two requests for one device fell on one instant"""
+        for t, name in self.events:
+            for i in range(len(self.devs)):
+                for n, ms, action in self.ev_delayed(i):
+                    if n == name:
+                        self.pending.append((t + ms, i, action))
+        now = self.now_ms()
+        fired = sorted(p for p in self.pending if p[0] <= now)
+        self.pending = [p for p in self.pending if p[0] > now]
+        return fired
 
     # -- ops ----------------------------------------------------------------------------------------------------------
     def do(self, op):
@@ -411,6 +461,8 @@ class Run:
                 m.events.post(op[1])
             elif kind == "advance":
                 vm.advance(op[1] / 8.0)
+            elif kind == "setting":
+                m.settings.set_setting_value("flipper_power", op[1])
             elif kind == "game":
                 self.game_op(op[1])
             vm.run()
@@ -516,10 +568,12 @@ def model_dev_line(run, i):
     if d["t"] == "F":
         dual = d["variant"].startswith("dual")
         eos = d["variant"].endswith("_eos")
-        psu_main = not (d["ho0"] if eos else d["mo0"])
+        mo0 = d["mo0"] and not d.get("power")
+        ho0 = d["ho0"] and not d.get("power")
+        psu_main = not (ho0 if eos else mo0)
         return "dev F %s %s %d %s %d %d %d %d %d %d %d %d %s %s" % (
             opt(None if d["noswitch"] else d["act"]), opt(d["eos"] if eos else None), m, opt(h if dual else None),
-            d["repulse"], d["eos_ms"], 0 if d["act"] in nc_switches(run.devs) else 1, psu_main, not d["ho0"], d["fail"] != "main", d["fail"] != "hold", d["hold_ms"],
+            d["repulse"], d["eos_ms"], 0 if d["act"] in nc_switches(run.devs) else 1, psu_main, not ho0, d["fail"] != "main", d["fail"] != "hold", d["hold_ms"],
             lst(en), lst(dis))
     fired = run.code("kickback_k%d_fired" % i) if d["t"] == "K" else None
     return "dev A %d %d %d %d %d %d %d %d %s %s %s" % (
@@ -583,23 +637,30 @@ class ModelFeed:
             return out
         return []
 
-    def feed(self, op, sw_before, events, end_ms):
-        """returns the model's observation after the op (cmd log accumulated over the lines), or None when unsynced"""
+    def feed(self, op, sw_before, events, fired, end_ms):
+        """returns the model's observation after the op (cmd log accumulated over the lines), or None when unsynced.
+        events: lifecycle/control events seen (ms, name); fired: delayed control events that fired (ms, device, action)"""
         cmds, refused = [], []
         lines = [("op", l) for l in self.lines_for(op, sw_before)]
-        for t, name in events:
+        timeline = [(t, 0, "ev %d" % self.run.code(name)) for t, name in events] + \
+                   [(t, 1, "%s %d" % (action, i)) for t, i, action in fired]
+        stamps = [t for t, _, _ in timeline]
+        if any(k == 1 and stamps.count(t) > 1 for t, k, _ in timeline):
+            self.synced = False          # a delayed request and something else at one instant: order not modelled
+            return None
+        for t, _, l in sorted(timeline, key=lambda x: x[0]):     # stable: events keep their posting order
             lines.append(("at", t))
-            lines.append(("op", "ev %d" % self.run.code(name)))
-        lines.append(("at", end_ms))
+            lines.append(("op", l))
+        lines.append(("end", end_ms))
         obs = self.last
         asked = False
         for kind, l in lines:
-            if kind == "at":
-                if l <= self.now and not (l == end_ms and not asked):
+            if kind in ("at", "end"):
+                if l <= self.now and not (kind == "end" and not asked):
                     continue
                 dt = max(0, l - self.now)
-                if l != end_ms and obs is not None and str(dt) in pending_dues(obs):
-                    self.synced = False     # a device timer and a lifecycle event at one instant: order not modelled
+                if kind == "at" and obs is not None and str(dt) in pending_dues(obs):
+                    self.synced = False     # a device timer and an event / delayed request at one instant
                     self.why = (dt, obs["d"], self.run.events)
                     return None
                 l = "advance %d" % dt
@@ -635,8 +696,8 @@ class Oracle:
     def cls(self, i):
         return {"F": "flipper", "A": "autofire", "K": "kickback"}[self.run.devs[i]["t"]]
 
-    def check(self, op, res, before_enabled):
-        """returns (signature, detail) or None"""
+    def check(self, op, res, before_enabled, fired=()):
+        """returns (signature, detail) or None; fired = delayed control events that fired in this op"""
         run = self.run
         obs_t, obs_h = run.table(), run.aux()
         en = [o._enabled for o in run.objs]
@@ -666,7 +727,15 @@ class Oracle:
             state = None
             if op[0] in ("enable", "disable") and op[2] == "api" and op[1] == i:
                 state = op[0]
-            for n in seen:
+            trig = sorted([(t, 0, n) for t, n in run.events] + [(t, 1, a) for t, j, a in fired if j == i],
+                          key=lambda x: x[0])
+            for t, k, n in trig:
+                if k == 1:
+                    # a delayed request is an enable/disable request at the instant it fires; when something else
+                    # for this device falls on the same instant the order is asyncio's: no claim
+                    tie = sum(1 for t2, k2, n2 in trig if t2 == t and (k2 == 1 or n2 in diss or n2 in ens)) > 1
+                    state = "unknown" if tie else n
+                    continue
                 if n in diss:
                     state = "disable"
                 if n in ens:
@@ -675,7 +744,7 @@ class Oracle:
                 state = state or ("keep" if self.off[i] else None)
             if state == "disable":
                 self.off[i] = True
-            elif state == "enable":
+            elif state in ("enable", "unknown"):
                 self.off[i] = False
             elif any(("kickback_k%d_fired" % j) in ens for j in range(len(en))):
                 self.off[i] = False      # may be enabled by a kickback's fired event (not recorded): no claim
@@ -726,6 +795,7 @@ def run_ops(devs, game, ops, model=None, ctx=None, case=None):
         prev_t = []
         for at, op in enumerate(ops):
             before = [o._enabled for o in run.objs]
+            hits_before = {id(o): len(o._timeout_hits) for d, o in zip(devs, run.objs) if d["t"] != "F"}
             sw_before = run.sw_state.get(op[1]) if op[0] == "sw" else None
             res = run.do(op)
             if op[0] == "sw":
@@ -744,13 +814,26 @@ def run_ops(devs, game, ops, model=None, ctx=None, case=None):
                 if op[0] == "sw" and any(d["t"] != "F" and "_timeout_enable_delay" in o.delay.delays
                                          for d, o in zip(devs, run.objs)) and run.calls:
                     ctx.count("branch_timeout_protection_tripped")
+                if op[0] == "sw" and op[2] == 1:
+                    for d, o in zip(devs, run.objs):
+                        if d["t"] != "F" and d["sw"] == op[1] and d["watch"] and o._enabled and o._timeout_hits:
+                            now = run.vm.now()
+                            if any(t < now for t in o._timeout_hits):
+                                ctx.count("branch_hit_counted_from_earlier_instant")
+                            if len(o._timeout_hits) == 1 and hits_before.get(id(o), 0) >= 1:
+                                ctx.count("branch_earlier_hits_outside_window")
                 if op[0] == "advance" and run.calls:
                     ctx.count("branch_timer_changed_rules")
                 if op[0] in ("enable", "disable") and before[op[1]] == (op[0] == "enable"):
                     ctx.count("branch_repeated_" + op[0])
                 if op[0] == "disable" and devs[op[1]]["t"] != "F" and any(x.startswith("-") is False for x in [run.dev_state(op[1]).split("/")[1]]) is False:
                     pass
-            bad = orc.check(op, res, before)
+            fired = run.collect_delayed()
+            if ctx is not None and fired:
+                ctx.count("branch_delayed_request_fired", len(fired))
+                if any(a == "enable" and orc.off[j] for _, j, a in fired):
+                    ctx.count("branch_delayed_enable_after_disable")
+            bad = orc.check(op, res, before, fired)
             if bad:
                 return bad[0], bad[1], stats
             if feed is not None and feed.synced and not res.startswith("crash"):
@@ -758,7 +841,7 @@ def run_ops(devs, game, ops, model=None, ctx=None, case=None):
                 if res.startswith("refused") and not single:
                     feed.synced = False       # an event with several handlers was cut short by the exception
                 else:
-                    mobs = feed.feed(op, sw_before, run.events, run.now_ms())
+                    mobs = feed.feed(op, sw_before, run.events, fired, run.now_ms())
                     if mobs is not None:
                         impl = run.observe()
                         impl["r"] = res.startswith("refused")
@@ -809,11 +892,12 @@ def gen_eos_case(r):
     """directed stream: flippers with EOS switch and software repulse; button / EOS cycles around enable and disable"""
     devs = []
     for i in range(r.choice([1, 1, 2])):
-        variant = r.choice(["single_eos", "single_eos", "dual_eos"])
+        variant = r.choice(["single_eos", "dual_eos"])
         act = r.randrange(NSW)
         devs.append({"t": "F", "variant": variant, "act": act, "eos": r.choice([s for s in range(NSW) if s != act]),
                      "repulse": True, "eos_ms": r.choice([0, 250, 250]), "noswitch": False, "fail": None, "mo0": False,
                      "ho0": r.random() < 0.1, "search": r.random() < 0.5, "hold_ms": r.choice([250, 500]),
+                     "power": r.random() < 0.5,
                      "ev": [["d%d_on" % i, "ball_started"], ["d%d_off" % i, "ball_will_end", "service_mode_entered"]]})
     ops = []
     if r.random() < 0.7:     # one full repulse cycle first; the random tail starts with the coil possibly enabled by it
@@ -837,9 +921,33 @@ def gen_eos_case(r):
             ops.append(r.choice([["sw_flip", i, "api"], ["sw_release", i, "api"], ["search", i]]))
             if ops[-1][0] == "search" and not d["search"]:
                 ops.pop()
+        elif k < 0.85 and d["power"]:
+            ops.append(["setting", r.choice([0.8, 1.0, 1.2])])
         else:
             ops.append(["advance", r.choice([1, 2, 2, 3, 4])])
     return devs, ops
+
+
+def gen_window_case(r):
+    """directed stream: autofire / kickback timeout protection with hits at one instant, 125 ms and 250 ms apart, for
+    watch times whose *actual* window (watch/1000 ms in the code) is below, at and above 125 ms"""
+    kick = r.random() < 0.3
+    d = {"t": "K" if kick else "A", "sw": 2, "nc": False, "reverse": False, "pulse_ms": None, "pulse_power": None,
+         "recycle": None, "debounce": None, "fail": None, "watch": r.choice([1000, 125000, 130000, 200000, 300000]),
+         "max_hits": r.choice([2, 2, 3]), "dis_ms": r.choice([0, 250, 500]), "order": r.choice([0, 100]),
+         "self_disable": False, "ev": [["d0_on", "ball_started"], ["d0_off", "ball_will_end"]]}
+    ops = [["enable", 0, r.choice(["api", "event"])]]
+    for _ in range(r.randint(4, 14)):
+        k = r.random()
+        if k < 0.55:
+            ops += [["sw", 2, 1], ["sw", 2, 0]]
+        elif k < 0.85:
+            ops.append(["advance", r.choice([1, 1, 1, 2, 2, 3, 4])])
+        elif k < 0.93:
+            ops.append(r.choice([["disable", 0, "api"], ["ev", "ball_will_end"], ["enable", 0, "api"]]))
+        elif d["order"]:
+            ops.append(["search", 0])
+    return [d], ops
 
 
 DIRECTED = [
@@ -869,12 +977,15 @@ def run(ctx):
     try:
         for devs, ops in DIRECTED:
             run_case(ctx, devs, False, ops, model)
-        for i in range(ctx.n(600, 5000)):
+        for i in range(ctx.n(520, 5000)):
             r = ctx.rng("direct", i)
             devs, ops = gen_case(r, False)
             run_case(ctx, devs, False, ops, model)
         for i in range(ctx.n(150, 1200)):
             devs, ops = gen_eos_case(ctx.rng("eos", i))
+            run_case(ctx, devs, False, ops, model)
+        for i in range(ctx.n(80, 800)):
+            devs, ops = gen_window_case(ctx.rng("window", i))
             run_case(ctx, devs, False, ops, model)
         for i in range(ctx.n(160, 1200)):
             r = ctx.rng("game", i)
